@@ -1177,6 +1177,7 @@ impl HtmlRenderer {
         shrink_and_clear(&mut self.html, BUFFER_HTML_RESERVE_CAPACITY);
         shrink_and_clear(&mut self.line_offsets, BUFFER_LINES_RESERVE_CAPACITY);
         self.line_offsets.push(0);
+        self.last_carriage_return = None;
     }
 
     pub fn render<F>(
